@@ -7,7 +7,7 @@ use serde_json::{json, Value};
 #[derive(Clone, Debug, PartialEq)]
 pub struct CallPlan {
     pub method: u16,
-    pub vals: [u64; 12],
+    pub vals: [u64; 16],
     /// 0: call and (for async) await; 1: create the future and drop it unpolled
     pub flavor: u8,
 }
@@ -81,9 +81,9 @@ impl Plan {
                                 .map(|cs| {
                                     cs.iter()
                                         .map(|c| {
-                                            let mut vals = [0u64; 12];
+                                            let mut vals = [0u64; 16];
                                             if let Some(vs) = c["vals"].as_array() {
-                                                for (i, x) in vs.iter().take(12).enumerate() {
+                                                for (i, x) in vs.iter().take(16).enumerate() {
                                                     vals[i] = u(x);
                                                 }
                                             }
